@@ -104,6 +104,7 @@ class Registry:
     def __init__(self):
         self.contracts = {}
         self.field_hints = {}
+        self.plain_fields = set()     # (class, attribute): a C-level / property attribute modelled as a plain instance field (listed as an assumption)
         self.lemmas = []
         self.checks = []      # extra python-level checks (finite-set obligations etc.)
 
@@ -124,7 +125,12 @@ class Registry:
     def field(self, cls, name, hint):
         self.field_hints[(cls, name)] = hint
 
+    def plain_field(self, cls, *names):
+        for n in names:
+            self.plain_fields.add((cls, n))
+
 
 REG = Registry()
 contract = REG.contract
 field = REG.field
+plain_field = REG.plain_field
